@@ -116,6 +116,11 @@ func (e *Engine) funcsForProperty(prop string) []*ssa.Function {
 					match = true
 				}
 			}
+			for _, cl := range ct.AtLines {
+				if hasProp(cl.Tags, prop) {
+					match = true
+				}
+			}
 			for _, cl := range ct.LoopInvs {
 				if hasProp(cl.Tags, prop) {
 					match = true
